@@ -65,6 +65,8 @@ const (
 	toListMixed // ["a", 5, "zz"]
 	toTimers
 	toCaptain
+	toListEmpty      // []
+	toListNonStrings // [5, null]
 	toKinds
 )
 
@@ -84,6 +86,10 @@ func withTo(m map[string]interface{}, kind int) map[string]interface{} {
 		m["to"] = []interface{}{"a", "a"}
 	case toListMixed:
 		m["to"] = []interface{}{"a", 5.0, "zz"}
+	case toListEmpty:
+		m["to"] = []interface{}{}
+	case toListNonStrings:
+		m["to"] = []interface{}{5.0, nil}
 	case toTimers:
 		m["to"] = TimersMachine
 	case toCaptain:
@@ -176,7 +182,7 @@ func VerifC14Sio() {
 		delete(have, TimersMachine)
 		delete(have, CaptainMachine)
 	}
-	all := []int{toAbsent, toA, toB, toStar, toUnknown, toListAB, toListAA, toListMixed, toTimers, toCaptain}
+	all := []int{toAbsent, toA, toB, toStar, toUnknown, toListAB, toListAA, toListMixed, toTimers, toCaptain, toListEmpty, toListNonStrings}
 	var ems []emission
 	emitsOf := map[string][]interface{}{}
 	for _, id := range []string{"a", "b"} {
